@@ -33,3 +33,24 @@ sv_t verif_d_compute_strides(sv_t shape) { return verif_to_sv(ix::compute_stride
 nm_size_t verif_d_compute_offset(sv_t indices, sv_t strides) { return ix::compute_offset(verif_to_lv(indices), verif_to_lv(strides)); }
 sv_t verif_d_compute_indices3(nm_size_t offset, sv_t shape, sv_t strides) { return verif_to_sv(ix::compute_indices(offset, verif_to_lv(shape), verif_to_lv(strides))); }
 nm_size_t verif_d_product(sv_t shape) { return ix::product(verif_to_lv(shape)); }
+
+// normalize_axis with UNSIGNED axis lists (what compile-time literals `0_ct` and size_t containers give): fixed length 2 and bounded list
+#include "nmtools/array/index/normalize_axis.hpp"
+using a2u_t = nmtools_array<nm_size_t,2>;
+using opt_a2u_t = decltype(ix::normalize_axis(nm::meta::declval<const a2u_t&>(), nm_size_t{}));
+opt_a2u_t verif_u_normalize_axes2(a2u_t axes, nm_size_t ndim) { return ix::normalize_axis(axes,ndim); }
+
+// shape_reshape with a COMPILE-TIME constant destination (tuple of integral constants) and a run-time source: three representative
+// constants; the answer must be the one the run-time kinds give for the same values (NumPy reshape rules, C03)
+#include "nmtools/array/index/reshape.hpp"
+struct rs_obs { bool ok; sv_t shape; };
+using rs_obs_t = rs_obs;
+template <typename R> static inline rs_obs verif_rs_observe(const R& r)
+{
+    rs_obs o{}; o.ok = static_cast<bool>(r);
+    if (o.ok) { auto n = nm::len(*r); o.shape.resize(n); for (nm_size_t i = 0; i < (nm_size_t)n; i++) o.shape[i] = (nm_size_t)nm::at(*r,i); }
+    return o;
+}
+rs_obs verif_ct_reshape_m2_m3(sv_t src) { return verif_rs_observe(ix::shape_reshape(src, nmtools_tuple{nm::meta::ct_v<-2>, nm::meta::ct_v<-3>})); }
+rs_obs verif_ct_reshape_2_m1(sv_t src)  { return verif_rs_observe(ix::shape_reshape(src, nmtools_tuple{nm::meta::ct_v<2>, nm::meta::ct_v<-1>})); }
+rs_obs verif_ct_reshape_3_2(sv_t src)   { return verif_rs_observe(ix::shape_reshape(src, nmtools_tuple{nm::meta::ct_v<3>, nm::meta::ct_v<2>})); }
